@@ -82,7 +82,7 @@ def main(tier):
                 writes = [a for a in x["accesses"] if a.startswith("write")]
                 pub = ("client.(*Client).Destroy", "credentials.New", "keytab.New")
                 cls = "other"
-                if x["phase"] == "destroy" and writes and all(any(w.split()[1] == p for p in pub) for w in writes):
+                if writes and all(any(w.split()[1] == p for p in pub) for w in writes):
                     cls = "Destroy-replaces-Credentials"
                 facts = {"ev": "race", "phase": x["phase"], "site_class": cls, "accesses": x["accesses"] if cls == "other" else []}
             else:
